@@ -8,8 +8,22 @@ generateFunctionBytecode/generateFunctionReturn, return.go compileReturn, for.go
 compileBreak / compileContinue / emitScopeUnwindTo, panic.go compilePanic).
 The model mirrors the code WITH fixes/C10.patch applied (break/continue leave the try statements
 they exit; every pass of a three-clause loop's increment has its own "let" marker).
+
+`return <expr>` (compileReturn, return.go) is modelled as the code stands: in a function with NAMED
+results the expression is evaluated and stored first and RunDefers follows; in a function with
+UNNAMED results RunDefers is emitted first and the expression is evaluated afterwards (the project's
+own tests tests/defer/basic.ego and tests/flow/defer.ego REQUIRE that order: a deferred closure that
+assigns a local changes the value `return r` yields).  Known finding
+`defers-run-twice-on-failing-return-expr`: see Props.lean.
 -/
 namespace EgoVerif.C10
+
+/-- the expression of a `return <expr>` statement, reduced to what carries control -/
+inductive RExpr where
+  | mkv (k : Nat)                     -- `mkv(k)`: observable effect, cannot fail
+  | call (f : Nat)                    -- `f()`: may emit, raise, panic
+  | div                               -- `1 / zero`: raises a catchable error
+  deriving Repr, DecidableEq
 
 /-- control statements; a program is a table of code units (functions and deferred closures),
 `defer_ c` registers unit `c` as a deferred closure, `call f` calls unit `f`. -/
@@ -22,6 +36,7 @@ inductive Stmt where
   | defer_ (c : Nat)                  -- `defer func(){ <unit c> }()`
   | call (f : Nat)
   | ret
+  | retE (named : Bool) (e : RExpr)   -- `return <e>` in a function with named / unnamed results
   | loop (id n : Nat) (body : List Stmt)   -- `for i := 0; i < n; i = i + 1 { body }`
   | brk
   | cont
@@ -66,6 +81,7 @@ mutual
 def sizeS (tn : List Bool) : Stmt → Nat
   | .emit _ | .raise | .panic _ | .recover | .defer_ _ | .call _ => 1
   | .ret => 2
+  | .retE _ _ => 3
   | .tryCatch b h => 2 + sizeB (true :: tn) b + 2 + sizeB (false :: tn) h + 1
   | .loop _ _ b => 2 + sizeB [] b + 2
   | .brk | .cont => tn.length + (tn.filter id).length + 1
@@ -73,6 +89,12 @@ def sizeB (tn : List Bool) : List Stmt → Nat
   | [] => 0
   | s :: r => sizeS tn s + sizeB tn r
 end
+
+/-- the instruction that evaluates a return expression (loads, coercions, stores erased) -/
+def RExpr.instr : RExpr → Instr
+  | .mkv k => .emit k
+  | .call f => .call f
+  | .div => .raise
 
 /-- emitScopeUnwindTo (fixed): for every try statement opened inside the target loop, innermost
 first: DropToMarker "try" if still in the try body, then TryPop. -/
@@ -90,7 +112,9 @@ def compS (pc : Nat) (lc : Option LoopCtx) (tn : List Bool) : Stmt → Code
   | .recover => [.recover]
   | .defer_ c => [.defer_ c]
   | .call f => [.call f]
-  | .ret => [.runDefers, .ret]                                   -- compileReturn
+  | .ret => [.runDefers, .ret]                                   -- compileReturn, bare return
+  | .retE true e => [e.instr, .runDefers, .ret]                  -- named results: expr; Store; RunDefers; Load; Return
+  | .retE false e => [.runDefers, e.instr, .ret]                 -- unnamed results: RunDefers; expr; Return
   | .tryCatch b h =>                                              -- compileTry
     let nb := sizeB (true :: tn) b
     let nh := sizeB (false :: tn) h
@@ -117,5 +141,15 @@ runDefers = true, function.go generateFunctionReturn) -/
 def compUnit (b : Block) : Code := compB 0 none [] b ++ [.runDefers, .ret]
 
 def compileCtl (p : Prog) : List Code := p.map compUnit
+
+/-- generateFunctionReturn (function.go): a function with NAMED results ends with a second Return
+(never reached: the first one leaves the function).  `named` lists the functions' kinds; units
+beyond the list (deferred closures) have no results. -/
+def compUnitK (named : Bool) (b : Block) : Code := compUnit b ++ (if named then [.ret] else [])
+
+def compileCtlK : Prog → List Bool → List Code
+  | [], _ => []
+  | b :: r, [] => compUnitK false b :: compileCtlK r []
+  | b :: r, n :: ns => compUnitK n b :: compileCtlK r ns
 
 end EgoVerif.C10
